@@ -259,6 +259,7 @@ type saCase struct {
 	single  bool // the change set must be exactly ONE schema.Change planned as >= 2 statements
 	fkCheck bool // judge / model the commit-time foreign-key check (V line)
 	mustFk  bool // the commit must be refused with "foreign key mismatch" in the transactional modes
+	exclude string // --exclude pattern (a table of the target the diff must not see)
 }
 
 func schemaApplyCases() []saCase {
@@ -347,6 +348,10 @@ table "keep" {
 		{name: "one-change-rebuild-then-unique-index-fails", setup: []string{"CREATE TABLE p (a INTEGER, b INTEGER)", "INSERT INTO p VALUES (1, 4)", "INSERT INTO p VALUES (1, 3)",
 			"CREATE TABLE keep (x INTEGER)", "INSERT INTO keep VALUES (5)"},
 			desired: "CREATE TABLE p (a INTEGER, b INTEGER NOT NULL);\nCREATE UNIQUE INDEX p_a ON p (a);\nCREATE TABLE keep (x INTEGER);\n", mustErr: true, single: true},
+		// the same rebuild, but its very first real statement (CREATE TABLE new_p, after the pragma) fails: the
+		// target holds a table of that name which the diff is told not to see (--exclude)
+		{name: "one-change-rebuild-create-fails", setup: append(append([]string{}, nulls...), "CREATE TABLE new_p (z INTEGER)", "INSERT INTO new_p VALUES (8)"),
+			desired: "CREATE TABLE p (a INTEGER, b INTEGER NOT NULL);\nCREATE INDEX p_a ON p (a);\nCREATE TABLE keep (x INTEGER);\n", mustErr: true, single: true, exclude: "new_p"},
 		// AddTable with three indexes: the name of the second / third one is taken by an index of another table
 		{name: "one-change-add-table-second-index-fails", setup: nulls, desired: hclN("n_x", "p_a", "n_z"), hcl: true, mustErr: true, single: true},
 		{name: "one-change-add-table-third-index-fails", setup: nulls, desired: hclN("n_x", "n_y", "p_a"), hcl: true, mustErr: true, single: true},
@@ -445,9 +450,12 @@ func runSchemaApply(w *out.W, mu *sync.Mutex, id string, c saCase) {
 	if !c.hcl {
 		common = append(common, "--dev-url", "sqlite://dev?mode=memory")
 	}
+	if c.exclude != "" {
+		common = append(common, "--exclude", c.exclude)
+	}
 	nChanges := -1
 	if c.single {
-		n, kinds, err := countChanges(tmp, db, c.desired, c.hcl)
+		n, kinds, err := countChanges(tmp, db, c.desired, c.hcl, c.exclude)
 		if err != nil {
 			fail("counting the changes of " + c.name + ": " + err.Error())
 			return
